@@ -6,4 +6,8 @@ INVARIANT WitnessInside
 INVARIANT Attained
 INVARIANT EndsInside
 INVARIANT DerivZero
+INVARIANT TVAdditive
+INVARIANT TVAtLeastChord
+INVARIANT TVAtMostPolygon
+PROPERTY TVMonotone
 CHECK_DEADLOCK FALSE
